@@ -296,6 +296,7 @@ def run(ctx):
     # the K5 witness: a never-computed directory-type task; a dry run must leave the source tree as it is
     witness(ctx, root)
     multipart_cases(ctx, ctx.n(12, 80), root)
+    second_migration_probe(ctx, root)
 
 
 WITNESS = {'classes': {'K0': {'name': 'wd', 'group': '', 'params': [], 'inputs': [], 'kind': 'dir', 'run_args': []}},
@@ -403,6 +404,51 @@ def multipart_cases(ctx, n, root):
         finally:
             b.cleanup_module()
             shutil.rmtree(base, ignore_errors=True)
+
+
+def second_migration_probe(ctx, root):
+    """"a second migration changes nothing" — also when the target no longer holds the copy the first migration made: the parameter-mode
+    chain has since written its own result for a task (the same value, stored in another layout: another size), or the user has put a file
+    there.  Whatever the second call does (it may refuse), every file of the target is byte-identical afterwards."""
+    import json as _json
+    from taskchain.utils.migration import migrate_to_parameter_mode
+    for k in range(ctx.n(6, 40)):
+        rng = ctx.rng('second-migration', k)
+        x = gen.gen_value(rng, 1, 2, gen.SAFE, gen.SAFE)
+        spec = {'classes': {'K0': {'name': 'up', 'group': rng.choice(['', 'g']), 'params': [{'name': 'x'}], 'inputs': [], 'kind': 'json', 'run_args': ['x']},
+                            'K1': {'name': 'down', 'group': '', 'params': [{'name': 'y', 'default': 1}], 'inputs': [{'by': 'class', 'ref': 'K0'}],
+                                   'kind': rng.choice(['json', 'dir']), 'run_args': ['y'], 'pull': [], 'in_kinds': {}}},
+                'files': {'main.json': {'tasks': ['K0', 'K1'], 'x': x}}, 'main': 'main.json', 'module': gen.fresh_modname()}
+        base = root / f'sm{k}'
+        b = pl.materialize(spec, base / 'mod', modname=spec['module'])
+        b.module()
+        src_dir, tgt_dir = base / 'src', base / 'tgt'
+        old = pl.make_config(b, src_dir).chain(parameter_mode=False)
+        for t in old.tasks.values():
+            _ = t.value
+        case = {'probe': 'second migration after the target changed', 'x': x, 'kinds': [c['kind'] for c in spec['classes'].values()]}
+        ctx.case(case, nontrivial=True); ctx.count('second-migration-probe')
+        with contextlib.redirect_stdout(io.StringIO()):
+            migrate_to_parameter_mode(pl.make_config(b, src_dir), tgt_dir, dry=False, verbose=False)
+        new = pl.make_config(b, tgt_dir).chain()
+        f = new.tasks['up' if not spec['classes']['K0']['group'] else 'g:up'].data_path
+        # the same value in the compact layout: what another writer of the same result may leave (other size, equal content)
+        f.write_text(_json.dumps(_json.loads(f.read_text())))
+        before = {str(p_.relative_to(tgt_dir)): p_.read_bytes() for p_ in sorted(tgt_dir.rglob('*')) if p_.is_file()}
+        try:
+            with contextlib.redirect_stdout(io.StringIO()):
+                migrate_to_parameter_mode(pl.make_config(b, src_dir), tgt_dir, dry=False, verbose=False)
+            outcome = 'returned'
+        except AssertionError:
+            outcome = 'refused (size mismatch)'
+        except Exception as e:      # noqa
+            outcome = f'{type(e).__name__}: {e}'[:120]
+        ctx.count('second-migration:' + outcome.split(':')[0])
+        after = {str(p_.relative_to(tgt_dir)): p_.read_bytes() for p_ in sorted(tgt_dir.rglob('*')) if p_.is_file()}
+        if before != after:
+            changed = sorted(k_ for k_ in set(before) | set(after) if before.get(k_) != after.get(k_))
+            ctx.fail('a second migration changed the target', case, {'outcome': outcome, 'changed_files': changed[:5]})
+        b.cleanup_module()
 
 
 def search(ctx, divergences):
